@@ -79,8 +79,21 @@ sched_conformance() {
 run_guarded() {
   local id="$1"; shift
   local out="$BUILD/$id.$$.out"
-  "$@" 2>&1 | tee "$out"
+  # a last-resort limit: quick checks take 1-2 minutes, thorough ones up to an hour; a check that
+  # is still running after 30 min / 4 h is hanging inside the code under test (e.g. a deadlocked
+  # worker pool), which is reported as a violation of the property being checked
+  local limit=1800
+  [ "${VERIF_TIER:-quick}" = thorough ] && limit=14400
+  timeout --signal=KILL "$limit" "$@" 2>&1 | tee "$out"
   local code=${PIPESTATUS[0]}
+  if [ "$code" -eq 137 ] && ! grep -q "^fatal error:\|^panic:" "$out"; then
+    local rp="$VERIF_DIR/replays/$id-hang.json"
+    printf '{"property":"%s","check":"hang","sig":"%s|check-did-not-terminate","what":"the check was still running after %s seconds: the code under test hangs (deadlock or livelock)","output_tail":%s}\n' "$id" "$id" "$limit" "$(tail -20 "$out" | python3 -c 'import json,sys; print(json.dumps(sys.stdin.read()))')" > "$rp"
+    echo "VIOLATION property=$id replay=$rp"
+    echo "  the check did not terminate within ${limit}s (hang inside the code under test)"
+    rm -f "$out"
+    exit 1
+  fi
   if [ "$code" -eq 0 ] || [ "$code" -eq 1 ]; then rm -f "$out"; exit "$code"; fi
   if grep -q "^HARNESS-ERROR\|^BUILD-ERROR" "$out"; then rm -f "$out"; exit 2; fi
   if grep -q "^fatal error:\|^panic:\|^goroutine [0-9]* \[" "$out" || [ "$code" -ge 128 ]; then
